@@ -901,6 +901,10 @@ func (it *Interp) opBulk(op *Op) {
 			panic("bad op: bulk with registered observers")
 		}
 	}
+	if op.Sub == "rel" {
+		it.opBulkRel(op)
+		return
+	}
 	masks := bulkMasks(op)
 	base := len(it.M.Ents)
 	for i, m := range masks {
@@ -921,6 +925,87 @@ func (it *Interp) opBulk(op *Op) {
 	it.count("bulk-archetypes")
 	if op.N > 256 {
 		it.count("bulk-more-than-256-archetypes")
+	}
+}
+
+// opBulkRel scales one relation archetype up: N targets and N children, one table per target; most children and
+// targets are removed again in four passes (children whose target stays, targets whose table is empty, targets whose
+// child stays and is detached), a few of every kind stay. Leaves N tables (most of them free) in one archetype.
+func (it *Interp) opBulkRel(op *Op) {
+	r := op.Comps[0]
+	n := op.N
+	base := len(it.M.Ents)
+	tgt := func(i int) int { return base + i }
+	child := func(i int) int { return base + n + i }
+	for i := 0; i < n; i++ {
+		it.M.Create(nil, nil, nil)
+	}
+	for i := 0; i < n; i++ {
+		it.M.Create([]int{r}, nil, []RelSpec{{C: r, T: tgt(i)}})
+	}
+	keepChild := func(i int) bool { return i%32 == 0 || i%32 == 2 }
+	keepTarget := func(i int) bool { return i%32 == 0 || i%32 == 1 }
+	if op.Mode == 1 {
+		// everything (the targets, their children and whatever else is alive) is removed by ONE RemoveEntities call
+		for i := 0; i < 2*n; i++ {
+			// (entities that existed before stay in the model; bulk ops are generated on an empty world only)
+			it.M.Kill(base + i)
+		}
+		if base != 0 {
+			panic("bad op: bulk relation batch removal on a non-empty world")
+		}
+		it.run(op, true, func(b *Backend) {
+			id := b.ids([]int{r})
+			for i := 0; i < n; i++ {
+				b.bind(tgt(i), b.W.NewEntity())
+			}
+			for i := 0; i < n; i++ {
+				b.bind(child(i), b.U.NewEntityRel(id, ecs.RelID(id[0], b.H[tgt(i)])))
+			}
+			calls := 0
+			b.W.RemoveEntities(b.all.Batch(), func(e ecs.Entity) { calls++ })
+			if calls != 2*n {
+				fail("batch|bulk|callback-count", "%s: RemoveEntities over %d targets and their %d children ran its callback %d times", b.Name, n, n, calls)
+			}
+		})
+		it.count("bulk-relation-batch-removal")
+		if n >= 256 {
+			it.count("bulk-relation-batch-removal-of-256-or-more-targets")
+		}
+		return
+	}
+	for i := 0; i < n; i++ {
+		if !keepChild(i) {
+			it.M.Kill(child(i))
+		}
+	}
+	for i := n - 1; i >= 0; i-- {
+		if !keepTarget(i) {
+			it.M.Kill(tgt(i))
+		}
+	}
+	it.run(op, true, func(b *Backend) {
+		id := b.ids([]int{r})
+		for i := 0; i < n; i++ {
+			b.bind(tgt(i), b.W.NewEntity())
+		}
+		for i := 0; i < n; i++ {
+			b.bind(child(i), b.U.NewEntityRel(id, ecs.RelID(id[0], b.H[tgt(i)])))
+		}
+		for i := 0; i < n; i++ {
+			if !keepChild(i) {
+				b.W.RemoveEntity(b.H[child(i)])
+			}
+		}
+		for i := n - 1; i >= 0; i-- {
+			if !keepTarget(i) {
+				b.W.RemoveEntity(b.H[tgt(i)])
+			}
+		}
+	})
+	it.count("bulk-relation-tables")
+	if n > 128 {
+		it.count("bulk-more-than-128-relation-tables")
 	}
 }
 
@@ -1356,7 +1441,12 @@ func (b *Backend) buildFilter(fs *FilterSpec) Filter {
 	} else if len(fs.Without) > 0 {
 		f.Without(compsOf(fs.Without))
 	}
-	if len(fs.Rels) > 0 {
+	if fs.Chain {
+		// "can be called multiple times in chains, or once with multiple arguments"
+		for i := range fs.Rels {
+			f.Relations(b.rels(fs.List(), fs.Rels[i:i+1]))
+		}
+	} else if len(fs.Rels) > 0 {
 		f.Relations(b.rels(fs.List(), fs.Rels))
 	}
 	return f
@@ -1373,12 +1463,28 @@ func (it *Interp) opFilterReg(op *Op) {
 		if b.Pol.UncachedOnly {
 			return
 		}
+		// op.N extra registration cycles first (cache IDs, like observer IDs, are handed out by a growing pool)
+		for k := 0; k < op.N; k++ {
+			if op.Mode == 1 {
+				b.flt[op.F].Register()
+				b.flt[op.F].Unregister()
+			} else {
+				b.flt[op.F].Unregister()
+				b.flt[op.F].Register()
+			}
+		}
 		if op.Mode == 1 {
 			b.flt[op.F].Register()
 		} else {
 			b.flt[op.F].Unregister()
 		}
 	})
+	if op.N > 0 {
+		it.count("filter-registration-cycles")
+		if op.N > 256 {
+			it.count("filter-more-than-256-registration-cycles")
+		}
+	}
 	nreg := 0
 	for _, f := range it.M.Filters {
 		if f.Registered {
@@ -2081,7 +2187,7 @@ func opComps(op *Op) uint16 {
 	for _, r := range op.QRels {
 		m |= 1 << uint(r.C)
 	}
-	if op.K == "bulk" {
+	if op.K == "bulk" && op.Sub != "rel" {
 		m |= 0xffff &^ comps.RelMask
 	}
 	switch op.K {
